@@ -351,8 +351,12 @@ fn leaks(debug: &str, ids: &[SessionId]) -> bool {
 
 // ---- operations ----------------------------------------------------------------------------------------
 
+/// `Some(v)` is reported as `[v]` so that a stored JSON `null` differs from "no value".
 fn opt(v: Option<Value>) -> Json {
-    v.unwrap_or(Json::Null)
+    match v {
+        Some(v) => json!([v]),
+        None => Json::Null,
+    }
 }
 
 fn sync_err_kind(e: &SyncError) -> &'static str {
